@@ -26,6 +26,15 @@ FILES = [
     'crates/air/src/layout/mod.rs', 'crates/air/src/trace/mod.rs',
 ]
 
+FILES_PARSER = ['proof_parser/src/json_parser.rs', 'proof_parser/src/builtins.rs', 'proof_parser/src/layout.rs',
+                'proof_parser/src/annotations/mod.rs', 'proof_parser/src/annotations/extract.rs',
+                'proof_parser/src/annotations/annotation_kind.rs', 'cli/src/transform.rs']
+SET = 'parser' if '--set' in sys.argv and sys.argv[sys.argv.index('--set') + 1] == 'parser' else 'workspace'
+if SET == 'parser':
+    FILES = FILES_PARSER
+    CHECKS = ['C19', 'C03', 'C13']
+    OUT = OUT + '_parser'
+
 OPS = [
     ('lt->le', r'(?<![<=>!-])<(?![<=])\s', '<= '), ('le->lt', r'<=', '<'), ('gt->ge', r'(?<![-=>])>(?![>=])\s', '>= '), ('ge->gt', r'>=', '>'),
     ('eq->ne', r'==', '!='), ('ne->eq', r'!=', '=='), ('and->or', r'&&', '||'), ('or->and', r'\|\|', '&&'),
@@ -74,6 +83,21 @@ def candidates():
             m = re.match(r'^(\s*)([\w:.<>&\[\]() ,*]+\([^;]*\))\?;\s*$', code)
             if m and not code.strip().startswith(('let ', 'return')):
                 out.append({'file': f, 'line': ln + 1, 'op': 'drop-verdict', 'old': line, 'new': f'{m.group(1)}let _ = {m.group(2)};'})
+        # literal indices and adjacent struct-literal fields (data-mapping code: which element / which field goes where)
+        for ln, line in enumerate(lines):
+            code = line.split('//')[0]
+            for m in re.finditer(r'\[(\d+)\]', code):
+                new = code[:m.start()] + '[%d]' % (int(m.group(1)) + 1) + code[m.end():]
+                out.append({'file': f, 'line': ln + 1, 'op': 'index+1', 'old': line, 'new': new + line[len(code):]})
+        off = 0
+        for ln in range(len(lines) - 1):
+            a = re.match(r'^(\s*)(\w+): (.+),\s*$', lines[ln])
+            b = re.match(r'^(\s*)(\w+): (.+),\s*$', lines[ln + 1])
+            if a and b and a.group(1) == b.group(1) and a.group(3) != b.group(3) and '{' not in a.group(3) + b.group(3):
+                start = sum(len(x) + 1 for x in lines[:ln])
+                end = start + len(lines[ln]) + 1 + len(lines[ln + 1]) + 1
+                txt = f'{a.group(1)}{a.group(2)}: {b.group(3)},\n{b.group(1)}{b.group(2)}: {a.group(3)},\n'
+                out.append({'file': f, 'line': ln + 1, 'op': 'swap-fields', 'span': [start, end], 'old': lines[ln].strip() + ' / ' + lines[ln + 1].strip(), 'new': txt})
         # statement deletion: ensure!/assure!/assert! blocks and `if .. { return Err(..); }`
         for m in re.finditer(r'\n([ \t]*)(ensure|assure|assert|assert_eq)!\((?:[^;]|\n)*?\);\n', body):
             ln = body[:m.start() + 1].count('\n') + 1
@@ -91,7 +115,7 @@ def apply(c, root):
     src = open(p).read()
     if 'span' in c:
         a, b = c['span']
-        src = src[:a] + src[b:]
+        src = src[:a] + c.get('new', '') + src[b:]
     else:
         lines = src.split('\n')
         assert lines[c['line'] - 1] == c['old'], 'source moved'
@@ -106,6 +130,26 @@ def one(c, worker):
     try:
         subprocess.run(['rsync', '-a', '--exclude', 'target', '--exclude', '.git', '/repo/', w + '/'], check=True)
         apply(c, w)
+        if SET == 'parser':
+            # proof_parser and cli are outside the workspace: 'live' = the mutant type-checks (fact extraction of the
+            # parser and of one cli configuration succeeds); the parser's own 7 tests are not run
+            envx = dict(os.environ, SWV_REPO=w)
+            q = subprocess.run([sys.executable, V + '/rules/extract.py', 'parser', 'cli_recursive'], cwd=V, env=envx, capture_output=True, text=True)
+            if q.returncode != 0 or 'ExtractError' in q.stderr or 'error' in q.stderr.lower():
+                return c['id'], {'status': 'does-not-compile'}
+            env2 = dict(os.environ, SWV_REPO=w, SWV_EVIDENCE_DIR=tempfile.mkdtemp(prefix='mutev.', dir='/tmp'))
+            fired = {}
+            for ck in CHECKS:
+                q = subprocess.run([sys.executable, V + '/rules/main.py', ck], cwd=V, env=env2, capture_output=True, text=True)
+                if q.returncode != 0:
+                    keys = sorted({re.sub(r'\|\d+$', '', m) for m in re.findall(r'\(key ([^)]*)\)', q.stdout)})
+                    fired[ck] = sorted({k.split('|')[0] for k in keys})[:6] or re.findall(r'ANALYSIS-INCOMPLETE rule=(\S+)', q.stdout)[:2]
+            shutil.rmtree(env2['SWV_EVIDENCE_DIR'], ignore_errors=True)
+            th = subprocess.run([sys.executable, '-c', 'import sys; sys.path.insert(0, sys.argv[1]); import extract; print(extract.tree_hash())',
+                                 V + '/rules'], env=env2, capture_output=True, text=True).stdout.strip()
+            if th and os.path.isdir(V + '/.cache/facts/' + th):
+                shutil.rmtree(V + '/.cache/facts/' + th, ignore_errors=True)
+            return c['id'], {'status': 'live', 'fired': fired}
         env = dict(os.environ, CARGO_TARGET_DIR=tgt, CARGO_NET_OFFLINE='true')
         import signal
         pr = subprocess.Popen(['cargo', 'test', '--workspace', '--no-fail-fast', '--offline', '-q'], cwd=w, env=env, stdout=subprocess.PIPE,
@@ -157,7 +201,7 @@ def main():
         from collections import Counter
         print(len(cs), 'candidates;', Counter(c['op'] for c in cs).most_common())
         return
-    jobs = max([int(a[2:]) for a in sys.argv[2:] if a.startswith('-j')] or [4])
+    jobs = max([int(a[2:]) for a in sys.argv[2:] if a.startswith('-j') and a[2:].isdigit()] or [4])
     mx = 10 ** 9
     only = None
     a = sys.argv[2:]
